@@ -75,5 +75,81 @@ pub mod distributions {
 }
 pub mod prelude {
     pub use super::distributions::Distribution;
-    pub use super::{thread_rng, Rng, RngCore};
+    pub use super::rngs::StdRng;
+    pub use super::{thread_rng, Rng, RngCore, SeedableRng};
+}
+
+// ------------------------------------------------------------------------------------------------
+// deterministic generators: their output is a function of the seed, NOT a fresh draw (nothing is logged)
+// ------------------------------------------------------------------------------------------------
+pub trait SeedableRng: Sized {
+    type Seed;
+    fn from_seed(seed: Self::Seed) -> Self;
+    fn seed_from_u64(state: u64) -> Self;
+    fn from_entropy() -> Self;
+    fn from_rng<R: RngCore>(rng: R) -> Result<Self, Error>;
+}
+#[derive(Debug)]
+pub struct Error;
+pub mod rngs {
+    use super::{RngCore, SeedableRng};
+    pub use super::ThreadRng;
+    #[derive(Clone, Debug)]
+    pub struct StdRng {
+        seed: [u8; 32],
+        ctr: u32,
+    }
+    pub type SmallRng = StdRng;
+    impl SeedableRng for StdRng {
+        type Seed = [u8; 32];
+        fn from_seed(seed: [u8; 32]) -> Self {
+            StdRng { seed, ctr: 0 }
+        }
+        fn seed_from_u64(state: u64) -> Self {
+            let mut seed = [0u8; 32];
+            let b = state.to_le_bytes();
+            let mut i = 0;
+            while i < 8 {
+                seed[i] = b[i];
+                i += 1;
+            }
+            StdRng { seed, ctr: 0 }
+        }
+        fn from_entropy() -> Self {
+            let mut seed = [0u8; 32];
+            verif_oracle::rng_fill(&mut seed);
+            StdRng { seed, ctr: 0 }
+        }
+        fn from_rng<R: RngCore>(mut rng: R) -> Result<Self, super::Error> {
+            let mut seed = [0u8; 32];
+            rng.fill_bytes(&mut seed);
+            Ok(StdRng { seed, ctr: 0 })
+        }
+    }
+    impl RngCore for StdRng {
+        fn next_u32(&mut self) -> u32 {
+            let mut b = [0u8; 4];
+            self.fill_bytes(&mut b);
+            u32::from_le_bytes(b)
+        }
+        fn next_u64(&mut self) -> u64 {
+            let mut b = [0u8; 8];
+            self.fill_bytes(&mut b);
+            u64::from_le_bytes(b)
+        }
+        fn fill_bytes(&mut self, dest: &mut [u8]) {
+            // output block k = UF(seed, k): deterministic in the seed, 32 bytes per block
+            let mut i = 0;
+            while i < dest.len() {
+                let o = verif_oracle::uf(verif_oracle::USER + 50, &[&self.seed, &self.ctr.to_le_bytes()]);
+                let mut j = 0;
+                while j < 32 && i < dest.len() {
+                    dest[i] = o[j];
+                    i += 1;
+                    j += 1;
+                }
+                self.ctr += 1;
+            }
+        }
+    }
 }
